@@ -70,17 +70,25 @@ RCP<const Basic> Basic::loads(const std::string &serialized)
     unsigned short major, minor;
     RCP<const Basic> obj;
     std::istringstream iss(serialized);
-    RCPBasicAwareInputArchive<cereal::PortableBinaryInputArchive> iarchive{iss};
-    iarchive(major, minor);
-    if (major != SYMENGINE_MAJOR_VERSION or minor != SYMENGINE_MINOR_VERSION) {
-        throw SerializationError(StreamFmt()
-                                 << "SymEngine-" << SYMENGINE_MAJOR_VERSION
-                                 << "." << SYMENGINE_MINOR_VERSION
-                                 << " was asked to deserialize an object "
-                                 << "created using SymEngine-" << major << "."
-                                 << minor << ".");
+    try {
+        // the archive reads a header byte when it is constructed
+        RCPBasicAwareInputArchive<cereal::PortableBinaryInputArchive> iarchive{
+            iss};
+        iarchive(major, minor);
+        if (major != SYMENGINE_MAJOR_VERSION
+            or minor != SYMENGINE_MINOR_VERSION) {
+            throw SerializationError(
+                StreamFmt() << "SymEngine-" << SYMENGINE_MAJOR_VERSION << "."
+                            << SYMENGINE_MINOR_VERSION
+                            << " was asked to deserialize an object "
+                            << "created using SymEngine-" << major << "."
+                            << minor << ".");
+        }
+        iarchive(obj);
+    } catch (cereal::Exception &e) {
+        // input that ends inside the header
+        throw SerializationError(e.what());
     }
-    iarchive(obj);
     return obj;
 #else
     throw NotImplementedError("Serialization not implemented in no-rtti mode");
